@@ -27,6 +27,10 @@ def find_sources(F):
         for n in walk(f["body"]):
             if n.get("k") == "MethodCall" and n["method"] in ITER_METHODS and HM.search(n.get("recv_ty", "")):
                 out.append((f, n, n["recv_ty"], n["method"]))
+            elif n.get("k") == "MethodCall" and n["method"] in ("extend", "extend_from_slice", "append", "from_iter") and n["args"] and \
+                    HM.search(n["args"][0].get("ty", "")) and "hash_map::" not in n["args"][0]["ty"] and "hash_set::" not in n["args"][0]["ty"] and not HM.search(n.get("recv_ty", "")):
+                # a hash container handed wholesale to an ordered container: `vec.extend(set)`
+                out.append((f, n, n["args"][0]["ty"], "into_iter"))
             elif n.get("k") == "Call" and (n.get("callee") or "").endswith("IntoIterator::into_iter") and n["args"]:
                 a = n["args"][0]
                 # `for x in &map` / `for x in map` (not `for x in map.iter()`, which is caught above)
